@@ -6,6 +6,8 @@ mod fam_locals;
 mod fam_iter;
 mod fam_custom;
 mod fam_edit;
+mod optok;
+mod fam_lower;
 
 use ctx::Ctx;
 
@@ -42,6 +44,7 @@ fn main() {
         "compiter" => fam_iter::run_compiter(&mut ctx),
         "custom" => fam_custom::run(&mut ctx),
         "edit" => fam_edit::run(&mut ctx),
+        "lower" => fam_lower::run(&mut ctx),
         x => {
             eprintln!("unknown family {x}");
             std::process::exit(2);
